@@ -2362,6 +2362,13 @@ func (b *Body) cursorDrivers(l *Ledger, sp *ssa.Package) {
 		}
 		calls := stepCalls(fn)
 		if len(calls) == 0 {
+			// the three cursor functions of the inherited decoder keep the scanner in step by
+			// definition; one of them that no longer calls the scanner skips by a reckoning of
+			// its own (counting brackets and quotes), which the scanner is not bound by
+			switch fn.Name() {
+			case "skip", "scanWhile", "scanNext":
+				l.add("R-DRIVER", "codec", fmt.Sprintf("cursor %s: moves forward only over a byte shown to the scanner", fname(fn)), b.rel(fn.Pos()), Violated, "the function moves the decoder's position without calling the scanner's step function at all: where a value ends is decided by a reckoning of its own, which need not agree with the scanner on strings, escapes and nesting", true)
+			}
 			continue
 		}
 		key := fmt.Sprintf("cursor %s: moves forward only over a byte shown to the scanner", fname(fn))
